@@ -595,10 +595,19 @@ func work(ctx *runner.Ctx) {
 	}
 	// arrays and slices
 	elws := []int{8, 12, 16, 64, 1, 4, 65}
+	maxN := 4
+	if !ctx.Quick() {
+		elws = nil
+		for e := 1; e <= 20; e++ {
+			elws = append(elws, e)
+		}
+		elws = append(elws, 31, 32, 33, 63, 64, 65, 100, 128, 130)
+		maxN = 6
+	}
 	for _, kind := range []string{"array", "slice"} {
 		for _, elk := range []string{"uint", "int"} {
 			for _, e := range elws {
-				for n := 0; n <= 4; n++ {
+				for n := 0; n <= maxN; n++ {
 					for given := 0; given <= n; given++ {
 						if kind == "slice" && given != n {
 							continue // a slice is instantiated from what is given
@@ -607,6 +616,10 @@ func work(ctx *runner.Ctx) {
 						base := []string{"0", "1", "255", "128", "170"}
 						if e < 8 {
 							base = []string{"0", "1", fmt.Sprint((1 << e) - 1)}
+						} else if e > 8 && !ctx.Quick() {
+							// thorough: the all-ones element and the top bit alone
+							base = append(base, new(big.Int).Sub(new(big.Int).Lsh(big.NewInt(1), uint(e)), big.NewInt(1)).String(),
+								new(big.Int).Lsh(big.NewInt(1), uint(e-1)).String())
 						}
 						// all-same and rotating patterns
 						for r := 0; r < len(base); r++ {
@@ -685,6 +698,11 @@ func work(ctx *runner.Ctx) {
 	rec(nil, 0, 2)
 	if !ctx.Quick() {
 		rec(nil, 0, 3)
+		// 4 members over a restricted pool
+		save := pool
+		pool = []TDesc{save[0], save[1], save[8], save[7], save[10], save[11]}
+		rec(nil, 0, 4)
+		pool = save
 	} else {
 		// 3 members: restrict the pool further
 		save := pool
